@@ -4,6 +4,10 @@ seeded/MUTSCAN.json, with the manual classification of every survivor (seeded/mu
 import json, os, collections
 root = os.path.dirname(os.path.dirname(os.path.abspath(__file__)))
 rs = [json.loads(l) for l in open(os.path.join(root, ".work", "mutscan", "results.jsonl"))]
+_last = {}
+for r in rs:  # a site judged again (tools/mutscan.py --redo) counts with its latest result
+    _last[(r["file"], tuple(r["site"]))] = r
+rs = list(_last.values())
 notes = json.load(open(os.path.join(root, "seeded", "mutscan_notes.json")))
 c = collections.Counter(r["status"] for r in rs)
 by = collections.Counter(r.get("by") for r in rs if r["status"] == "detected")
@@ -15,18 +19,25 @@ for r in rs:
     cls, why = notes.get(key, ["UNCLASSIFIED", ""])
     surv.append({"file": r["file"], "line": r["line"], "operator": r["op"], "change": r["desc"],
                  "checks_tried": [t[0] for t in r.get("tried", [])], "classification": cls, "why": why})
+closed = []
+for r in rs:
+    key = f"{r['file']}:{r['line']}:{r['op']}"
+    if r["status"] == "detected" and notes.get(key, [""])[0] == "gap":
+        closed.append({"file": r["file"], "line": r["line"], "operator": r["op"],
+                       "change": r["desc"], "now_detected_by": r["by"], "what_was_missing": notes[key][1]})
 out = {
     "base": sorted({r.get("base") for r in rs if r.get("base")}),
-    "sampled": len(rs), "of_sites": 1970,
+    "sampled": len(rs), "of_sites": 1985,
     "does_not_import": c["does_not_import"], "killed_by_suite": c["killed_by_suite"],
     "survived_suite": c["detected"] + c["survived"],
     "detected_by_quick_tiers": c["detected"], "detected_by_check": dict(sorted(by.items())),
     "survived_both": c["survived"],
     "survivor_classes": dict(collections.Counter(s["classification"] for s in surv)),
+    "gaps_closed": closed,
     "survivors": surv,
     "detected": [{"file": r["file"], "line": r["line"], "operator": r["op"], "change": r["desc"],
                   "by": r["by"], "first": (r.get("detail") or [""])[0][:160]}
                  for r in rs if r["status"] == "detected"],
 }
 json.dump(out, open(os.path.join(root, "seeded", "MUTSCAN.json"), "w"), indent=1)
-print({k: v for k, v in out.items() if k not in ("survivors", "detected")})
+print({k: v for k, v in out.items() if k not in ("survivors", "detected", "gaps_closed")}, len(closed), "gaps closed")
